@@ -21,7 +21,7 @@ def run(env, rep):
         "is read (computed from the guarding comparisons, insensitive to < vs <=); R3: continuation chunks inherit the first "
         "chunk's timestamp field, the header remembered per chunk stream is the header that was emitted, and the reader stores "
         "the timestamp field only from the 24-bit value it read; R4: every path of serialize to Ok(Packet) emits at least one "
-        "chunk.  Not decided: the round trip over all histories, exact payload slicing.")
+        "chunk; R5: a format-0 header carries the absolute timestamp and the other formats the difference to the previous header of the chunk stream, on both sides.  Not decided: the round trip over all histories, exact payload slicing.")
     rep.assumptions = ["byteorder's write/read_uN::<E> encode the named width and byte order"]
     m = chunk.ChunkModel(env, rep, "C01.anchors")
     if not m.ok:
@@ -124,6 +124,7 @@ def run(env, rep):
                         bad.append("%s stores %s" % (env.prog.bodies[m.stage_fn[s]].pretty.split("::")[-1], t[2]))
     rep.check("C01.R3", "reader:timestamp-field-from-read", not bad and nstores >= 3, "the reader stores timestamp_field only from the 24-bit value it just read (%d stores)" % nstores,
               "the reader's timestamp_field (which governs the extended timestamp of later chunks) is also written from something else: %s" % sorted(set(bad)), m.b["get_next"].span)
+    chunk.timestamp_semantics(m, rep, "C01.R5")
     # ------------------------------------------------------------------ R4
     se = m.b["serialize"]
     tr = grammar.trace(env, se.key, "w")
@@ -136,6 +137,6 @@ def run(env, rep):
         n_ok += 1
         if not any(t[0] == "call" and t[1].endswith("add_chunk") for t in p):
             empty.append(" ".join(fmt_tok(t) for t in chunk.sig(p) if t[0] == "when")[:300])
-    rep.floor("C01.R4", "Ok paths of ChunkSerializer::serialize", n_ok, 2)
+    rep.floor("C01.R4", "Ok paths of ChunkSerializer::serialize", n_ok, 1)
     rep.check("C01.R4", "non-empty-packet", not empty, "every Ok path of serialize emits at least one chunk (%d paths)" % n_ok,
               "serialize can return Ok(Packet) without emitting any chunk (the message would be lost silently) on the path: %s" % (empty[:1]), se.span)
